@@ -21,7 +21,7 @@ func init() {
 			"x 6 call forms (statement, x := f(), return f(), argument of another call, operand next to a folded constant, element after a folded constant) x 4 layouts (no/blank/comment/two blank lines between statements) x 3 positions of the statement in its body x " +
 			"3 definition styles (top level, nested in the caller, in an imported source module = second file); thorough also mixes the call forms per level. " +
 			"Model = the line list known by construction; each program is run under {optimizer on, off} x {plain, encode->decode} x {k = 0, 1, 3 prepended blank lines}: " +
-			"StackTrace() (outermost first, consecutive duplicates collapsed) must equal the model shifted by k, every position must name the file it lies in and lie inside it. " +
+			"StackTrace() (outermost first, one entry per active frame) must equal the model shifted by k, every position must name the file it lies in and lie inside it. " +
 			"states = programs, transitions = configurations run, traces = stack traces compared; non-trivial = d >= 1",
 		Run: run16,
 	})
@@ -109,6 +109,7 @@ type program struct {
 	desc    string
 	mainLen int
 	modLen  int
+	globals ugo.Map
 }
 
 // wrapMode: where the call statements of the chain are placed (0 plain; 1 in a finally block; 2 in a catch block;
@@ -264,17 +265,6 @@ func build(d int, fail int, forms []int, layout, position, style int, moduleBody
 	return p
 }
 
-func collapse(in []pos) []pos {
-	var out []pos
-	for _, x := range in {
-		if len(out) > 0 && out[len(out)-1] == x {
-			continue
-		}
-		out = append(out, x)
-	}
-	return out
-}
-
 func run16(c *fw.Ctx) {
 	maxD := 4
 	if c.Thorough() {
@@ -329,6 +319,39 @@ func run16(c *fw.Ctx) {
 			}
 		}
 	}
+	// recursion: the same call statement is active in several frames at once; the trace lists its line once per frame
+	c.Family("recursion", "self recursion of depth 1..4 (thorough 8) and mutual recursion through one call statement x 7 call forms x failures x wrapper depth 0..1; frames compared one by one")
+	maxR := 4
+	if c.Thorough() {
+		maxR = 8
+	}
+	for depth := 1; depth <= maxR; depth++ {
+		for fi := range failures {
+			for form := 0; form < nForms; form++ {
+				for variant := 0; variant < 4; variant++ {
+					if !c.Next() {
+						continue
+					}
+					check(c, buildRecursion(depth, fi, form, variant), depth)
+				}
+			}
+		}
+	}
+	// callbacks: the failing function is a script function that a Go function calls back (Invoker, plain or pooled) on
+	// behalf of a call statement of the script; that statement's function is still active and its line belongs to the trace
+	c.Family("callbacks", "failure in a script function invoked from Go (Invoker plain/pooled, one or two levels of call-back) under a chain of d <= 2 script functions x failures x 3 call forms")
+	for d := 0; d <= 2; d++ {
+		for fi := range failures {
+			for form := 0; form < 3; form++ {
+				for variant := 0; variant < 4; variant++ {
+					if !c.Next() {
+						continue
+					}
+					check(c, buildCallback(d, fi, form, variant), d+1)
+				}
+			}
+		}
+	}
 	c.Family("first-byte", "the failing statement / the call statement / the import is the very first byte of its file")
 	firsts := []program{
 		{desc: "first-byte: throw at byte 0 of main", main: "throw \"first\"\nreturn 1\n", expect: []pos{{"(main)", 1}}},
@@ -377,7 +400,7 @@ func check(c *fw.Ctx, p program, d int) {
 	if d >= 1 {
 		c.Nontrivial()
 	}
-	want := collapse(p.expect)
+	want := p.expect
 	c.Sample(map[string]any{"desc": p.desc, "main": p.main, "module": p.module, "expected": fmt.Sprint(want)})
 	for _, k := range []int{0, 1, 3} {
 		main := strings.Repeat("\n", k) + p.main
@@ -388,6 +411,7 @@ func check(c *fw.Ctx, p program, d int) {
 				if p.module != "" {
 					opt.Modules = map[string]string{"mod": p.module}
 				}
+				opt.Globals = p.globals
 				o := run.Source(main, opt)
 				c.AddTransitions(1)
 				c.AddTraces(1)
@@ -411,7 +435,6 @@ func check(c *fw.Ctx, p program, d int) {
 						return
 					}
 				}
-				got = collapse(got)
 				exp := make([]pos, len(want))
 				for i, w := range want {
 					exp[i] = w
@@ -427,4 +450,158 @@ func check(c *fw.Ctx, p program, d int) {
 		}
 	}
 	_ = ugo.Undefined
+}
+
+// buildRecursion: f calls itself depth times through ONE call statement and then fails. variant 0: called from main;
+// 1: called from a wrapper function; 2: mutual recursion f -> g -> f (two call statements alternate); 3: the recursion
+// runs inside an imported module.
+func buildRecursion(depth, fail, form, variant int) program {
+	f := failures[fail]
+	b := &builder{}
+	var expect []pos
+	file := "(main)"
+	if variant == 3 {
+		file = "mod"
+	}
+	b.add("id := func(x) { return x }")
+	b.add("var (f, g)")
+	b.add("f = func(n) {")
+	if f.pre != "" {
+		b.add("\t" + f.pre)
+	}
+	b.add("\tif n == 0 {")
+	failLn := b.add("\t\t" + f.stmt)
+	b.add("\t}")
+	callee := "f"
+	if variant == 2 {
+		callee = "g"
+	}
+	recLn := b.add("\t" + strings.Replace(callStmt(form, callee), callee+"()", callee+"(n - 1)", 1))
+	b.add("\treturn 0")
+	b.add("}")
+	gLn := 0
+	if variant == 2 {
+		b.add("g = func(n) {")
+		gLn = b.add("\t" + strings.Replace(callStmt(form, "f"), "f()", "f(n)", 1))
+		b.add("\treturn 0")
+		b.add("}")
+	}
+	start := fmt.Sprintf("f(%d)", depth)
+	var head []pos
+	if variant == 1 {
+		b.add("w := func() {")
+		wLn := b.add("\tr := " + start)
+		b.add("\treturn r")
+		b.add("}")
+		ln := b.add("w()")
+		head = []pos{{file, ln}, {file, wLn}}
+	} else {
+		ln := b.add("r := " + start)
+		head = []pos{{file, ln}}
+	}
+	b.add("return 1")
+	p := program{desc: fmt.Sprintf("recursion depth=%d fail=%s form=%d variant=%d", depth, f.name, form, variant)}
+	if variant == 3 {
+		p.module = b.text()
+		mb := &builder{}
+		ln := mb.add("import(\"mod\")")
+		mb.add("return 1")
+		p.main = mb.text()
+		expect = append(expect, pos{"(main)", ln})
+	} else {
+		p.main = b.text()
+	}
+	expect = append(expect, head...)
+	for i := 0; i < depth; i++ {
+		if form == 2 && variant != 2 {
+			// `return f(n - 1)`: a self call in tail position re-uses the frame, no call statement stays active
+			break
+		}
+		expect = append(expect, pos{file, recLn})
+		if variant == 2 {
+			expect = append(expect, pos{file, gLn})
+		}
+	}
+	expect = append(expect, pos{file, failLn})
+	p.expect = expect
+	return p
+}
+
+// callGlobals: CALL(f, args...) invokes f through an Invoker, PCALL through a pooled one.
+func callGlobals() ugo.Map {
+	mk := func(pooled bool) *ugo.Function {
+		return &ugo.Function{Name: "CALL", ValueEx: func(c ugo.Call) (ugo.Object, error) {
+			inv := ugo.NewInvoker(c.VM(), c.Get(0))
+			if pooled {
+				inv.Acquire()
+				defer inv.Release()
+			}
+			var args []ugo.Object
+			for i := 1; i < c.Len(); i++ {
+				args = append(args, c.Get(i))
+			}
+			return inv.Invoke(args...)
+		}}
+	}
+	return ugo.Map{"CALL": mk(false), "PCALL": mk(true)}
+}
+
+// buildCallback: main -> f0 -> ... -> f(d-1) -> CALL(cb) -> cb fails. variant&1: pooled Invoker; variant&2: two levels
+// (cb calls CALL(cb2), cb2 fails).
+func buildCallback(d, fail, form, variant int) program {
+	f := failures[fail]
+	b := &builder{}
+	call := "CALL"
+	if variant&1 == 1 {
+		call = "PCALL"
+	}
+	b.add("global (CALL, PCALL)")
+	b.add("id := func(x) { return x }")
+	var tail []pos
+	if variant&2 == 2 {
+		b.add("cb2 := func() {")
+		if f.pre != "" {
+			b.add("\t" + f.pre)
+		}
+		l2 := b.add("\t" + f.stmt)
+		b.add("\treturn 0")
+		b.add("}")
+		b.add("cb := func() {")
+		l1 := b.add("\t" + strings.Replace(callStmt(form, "XX"), "XX()", call+"(cb2)", 1))
+		b.add("\treturn 0")
+		b.add("}")
+		tail = []pos{{"(main)", l1}, {"(main)", l2}}
+	} else {
+		b.add("cb := func() {")
+		if f.pre != "" {
+			b.add("\t" + f.pre)
+		}
+		l1 := b.add("\t" + f.stmt)
+		b.add("\treturn 0")
+		b.add("}")
+		tail = []pos{{"(main)", l1}}
+	}
+	// chain, innermost first
+	lines := make([]pos, d+1)
+	for lvl := d; lvl >= 1; lvl-- {
+		b.add(fmt.Sprintf("f%d := func() {", lvl))
+		var st string
+		if lvl == d {
+			st = strings.Replace(callStmt(form, "XX"), "XX()", call+"(cb)", 1)
+		} else {
+			st = callStmt(form, fmt.Sprintf("f%d", lvl+1))
+		}
+		lines[lvl] = pos{"(main)", b.add("\t" + st)}
+		b.add("\treturn 0")
+		b.add("}")
+	}
+	if d == 0 {
+		lines[0] = pos{"(main)", b.add("r := " + call + "(cb)")}
+	} else {
+		lines[0] = pos{"(main)", b.add("r := f1()")}
+	}
+	b.add("return 1")
+	p := program{desc: fmt.Sprintf("callback d=%d fail=%s form=%d variant=%d", d, f.name, form, variant), main: b.text(), globals: callGlobals()}
+	p.expect = append(append([]pos{}, lines...), tail...)
+	return p
 }
